@@ -297,7 +297,7 @@ def seq_stats3(text):
     n = len(ms)
     if n == 0:
         res = (0, 0, 0)
-    elif n > 60:
+    elif n > 400:
         res = (n, 10 ** 9, n)
     else:
         def adj(a, b):
